@@ -169,6 +169,37 @@ func worker(c *fw.Ctx) *fw.Stats {
 			st.Count("cut."+lv.name, 1)
 		}
 	}
+	// values that the host froze while the module was still building them
+	if !skipFamily {
+		ecs := earlyCases()
+		seenEarly := map[string]bool{}
+		for i, ec := range ecs {
+			if !c.Mine(int64(i)) || !c.Risky("early|"+ec.Shape+"|"+ec.Kind+"|"+ec.When+"|"+ec.Outcome) {
+				continue
+			}
+			what, attempts := checkEarly(ec)
+			st.Evals++
+			st.States++
+			st.Nontrivial++
+			st.Transitions += int64(attempts)
+			st.Outcome(fmt.Sprintf("early-freeze/%s/%s", ec.When, map[bool]string{true: "violation", false: "holds"}[what != ""]))
+			if what != "" {
+				ec := ec
+				key := fmt.Sprintf("early-freeze|%s|%s|%s", ec.Shape, ec.When, ec.Outcome)
+				if strings.HasPrefix(what, "harness") {
+					key = "harness||"
+				}
+				if !seenEarly[key] && len(seenEarly) < 60 {
+					seenEarly[key] = true
+					st.Violate(key, what, Case{Outcome: ec.Outcome, Early: &ec})
+				}
+			}
+		}
+		if c.Shard == 0 {
+			st.Count("early_freeze_cases", int64(len(ecs)))
+			st.Sample(map[string]any{"early_freeze_program": ecs[0].source()})
+		}
+	}
 	flushCounters(st, cn)
 	return st
 }
@@ -201,6 +232,11 @@ func recordCrash(ci fw.CrashInfo, s *fw.Stats) {
 	var g Graph
 	outcome := "ok"
 	parts := strings.Split(ci.Key, "|")
+	if len(parts) == 5 && parts[0] == "early" {
+		ec := earlyCase{parts[1], parts[2], parts[3], parts[4]}
+		s.Violate(ci.Key, "process death while executing/freezing the module: "+ci.Stderr[:min(len(ci.Stderr), 200)], Case{Outcome: ec.Outcome, Early: &ec, Src: ec.source()})
+		return
+	}
 	if len(parts) == 3 {
 		outcome = parts[2]
 		g = parseGraph(parts[1])
@@ -271,8 +307,15 @@ func replay(c *fw.Ctx, raw json.RawMessage) []fw.Viol {
 	if err := json.Unmarshal(raw, &cs); err != nil {
 		fw.Fatal("bad case: %v", err)
 	}
-	g := &cs.Graph
 	debug.SetMaxStack(256 << 20)
+	if cs.Early != nil {
+		what, _ := checkEarly(*cs.Early)
+		if what == "" {
+			return nil
+		}
+		return []fw.Viol{{Key: fmt.Sprintf("early-freeze|%s|%s|%s", cs.Early.Shape, cs.Early.When, cs.Early.Outcome), What: what}}
+	}
+	g := &cs.Graph
 	cn := &counters{opsByKind: map[string]int64{}}
 	r, herr := execGraph(g, cs.Outcome, cn) // a crash finding dies here
 	if herr != "" {
